@@ -14,6 +14,9 @@ EXHAUSTIVE = True
 DECIDING = 'declarations'
 CHUNK = {'quick': 1, 'thorough': 4}
 TIMEOUT = 1800
+import fractions
+
+FIXED_VALUES = [1.5, 3, np.float32(2.5), np.int64(4), fractions.Fraction(1, 4), np.float64(-0.5), True]
 OPS = ['free_auto', 'free_named', 'uniform', 'norm', 'fixed', 'link_first', 'link_last',
        'auto_link_last', 'dup', 'future_auto_name', 'self_link', 'auto_self_link',
        'link_undeclared', 'nonstring_key', 'list_dist']
@@ -67,7 +70,8 @@ def _args(op, ref, n_named):
         'free_named': (new, (0, 1)),
         'uniform': (new, (-2.0, 3.0)),
         'norm': (new, norm(loc=1.0, scale=2.0)),
-        'fixed': (new, 1.5),
+        # a fixed parameter may be any number: Python float/int, NumPy scalars (an element of a catalogue array), Fraction
+        'fixed': (new, FIXED_VALUES[n_named % len(FIXED_VALUES)]),
         'link_first': (new, first),
         'link_last': (new, last),
         'auto_link_last': (None, last),
